@@ -4,4 +4,5 @@ EXTENDS MMR, TLC, Json
 Case(s) == [size |-> Size(s), nl |-> NL(s), root |-> RootTerm(s), peaks |-> s.pk,
             proofs |-> [i \in 1..NL(s) |-> [pos |-> s.lp[i], d |-> Data(i-1), path |-> ProofPathD(s, s.lp[i])]]]
 Emit == (KeepTerms(m) /\ NL(m) > 0) => PrintT(<<"MMRCASE", ToJson(Case(m))>>)
+
 =======================================================================
